@@ -41,14 +41,14 @@ pub struct Case {
     pub inline_after: bool,
 }
 
-const LABELS: [&str; 6] = ["hi", "A & B", "two words", "x<y", "7", "Zed"];
+const LABELS: [&str; 7] = ["hi", "A & B", "two words", "x<y", "7", "Zed", ""];
 const CLASSES: [&str; 5] = ["d-red", "thin", "d-fill-blue", "k1 k2", "d-dash"];
 
 const XFS: [&str; 4] = ["rotate(30)", "scale(2)", "translate(3, -1) rotate(-90)", "skewX(10)"];
 const DIRS: [&str; 4] = ["h", "H", "v", "V"];
 
 fn inst() -> impl Strategy<Value = Inst> {
-    (0u8..15, crate::gen::nice_pos(12), crate::gen::nice_pos(8), 0..LABELS.len(), 0..CLASSES.len(), any::<bool>(), prop::option::of((crate::gen::nice(40), crate::gen::nice(40))), any::<u8>(), any::<u8>(), crate::gen::nice_pos(6))
+    (0u8..17, crate::gen::nice_pos(12), crate::gen::nice_pos(8), 0..LABELS.len(), 0..CLASSES.len(), any::<bool>(), prop::option::of((crate::gen::nice(40), crate::gen::nice(40))), any::<u8>(), any::<u8>(), crate::gen::nice_pos(6))
         .prop_map(|(tpl, w, h, l, c, id, xy, m, m2, gap)| Inst {
             tpl,
             w: w.max(1.0),
@@ -74,6 +74,10 @@ fn templates() -> XEl {
     XEl::new("specs")
         .kid(XEl::new("rect").a("id", "tr").a("wh", "$w $h").a("text", "$label").a("class", "base"))
         .kid(XEl::new("circle").a("id", "tc").a("r", "$w").a("class", "$cls"))
+        // a group that counts up a document-level variable for itself: every instance starts from the document's value
+        .kid(XEl::new("g").a("id", "tx").kid(XEl::new("var").a("cnt", "{{$cnt + 1}}")).kid(XEl::new("rect").a("wh", "{{$cnt * 5}} 2")))
+        // a group whose own attribute is computed from a parameter: bound once, when the instance is made
+        .kid(XEl::new("g").a("id", "tv").a("w2", "{{$w + 1}}").kid(XEl::new("var").a("w", "50")).kid(XEl::new("rect").a("wh", "$w2 2")))
         // a size given by expressions which contain spaces
         .kid(XEl::new("rect").a("id", "te").a("wh", "{{$w + 1}} {{$h * 2}}").a("text", "$label"))
         .kid(XEl::new("g").a("id", "tg").kid(XEl::new("rect").a("wh", "$w 2").a("text", "$label")).kid(XEl::new("circle").a("cxy", "^@br").a("r", "1").a("class", "$cls")))
@@ -110,7 +114,7 @@ fn inline_template() -> Vec<XEl> {
 }
 
 fn tpl_id(t: u8) -> &'static str {
-    ["tr", "tc", "tg", "ts", "tn", "ti", "fr", "fc", "fe", "fg", "tf", "tw", "td", "fw", "te"][t as usize % 15]
+    ["tr", "tc", "tg", "ts", "tn", "ti", "fr", "fc", "fe", "fg", "tf", "tw", "td", "fw", "te", "tx", "tv"][t as usize % 17]
 }
 
 fn reuse_xml(k: usize, i: &Inst) -> XEl {
@@ -189,11 +193,13 @@ fn inline_xml(k: usize, i: &Inst) -> XEl {
         g
     };
     let fixed_group = || XEl::new("g").kid(XEl::new("rect").a("wh", "6 2")).kid(XEl::new("circle").a("cx", "6").a("cy", "1").a("r", "1"));
-    match i.tpl % 15 {
+    match i.tpl % 17 {
         6 => deco(at(XEl::new("rect").a("wh", "4 2")), "", "fr"),
         7 => deco(at(XEl::new("circle").a("r", "2")), "", "fc"),
         13 => deco(at(XEl::new("circle").a("wh", "4")), "", "fw"),
         14 => deco(at(XEl::new("rect").a("wh", format!("{{{{{} + 1}}}} {{{{{} * 2}}}}", num(i.w), num(i.h))).a("text", i.label.clone())), "", "te"),
+        15 => deco(group_at(XEl::new("g").kid(XEl::new("rect").a("wh", "10 2"))), "", "tx"),
+        16 => deco(group_at(XEl::new("g").a("w2", num(i.w + 1.0)).kid(XEl::new("rect").a("wh", format!("{} 2", num(i.w + 1.0))))), "", "tv"),
         8 => deco(at(XEl::new("ellipse").a("rx", "3").a("ry", "1")), "", "fe"),
         9 => deco(group_at(fixed_group()), "", "fg"),
         12 => deco(group_at(XEl::new("g").a("w", num(i.w)).a("label", i.label.clone()).kid(XEl::new("rect").a("wh", "$w 2").a("text", "$label"))), "", "td"),
@@ -240,7 +246,9 @@ fn inline_xml(k: usize, i: &Inst) -> XEl {
 pub fn docs(c: &Case) -> (String, String) {
     let mk = |by_hand: bool| -> String {
         let mut kids: Vec<X> = Vec::new();
-        let uses_inline = c.insts.iter().any(|i| i.tpl % 15 == 5);
+        let uses_inline = c.insts.iter().any(|i| i.tpl % 17 == 5);
+        // (a document-level variable which one of the templates counts up locally)
+        kids.push(X::El(XEl::new("var").a("cnt", "1")));
         kids.push(X::El(defs_template()));
         kids.push(X::El(XEl::new("rect").a("id", "base").a("xy", "50 50").a("wh", "10 6")));
         if c.specs_at == 0 {
@@ -331,7 +339,7 @@ impl Property for C18 {
     fn judge(&self, case: &Case, _strict: bool) -> Verdict {
         let (with_reuse, by_hand) = docs(case);
         let cfg = Cfg::plain();
-        let nested = case.insts.iter().any(|i| i.tpl % 15 == 4);
+        let nested = case.insts.iter().any(|i| i.tpl % 17 == 4);
         let distinct_bindings = case.insts.len() >= 2 && case.insts.windows(2).any(|w| w[0].w != w[1].w || w[0].label != w[1].label);
         let labels: Vec<String> = case.insts.iter().map(|i| format!("tpl:{}", tpl_id(i.tpl))).collect::<std::collections::BTreeSet<_>>().into_iter().collect();
         match (transform(&with_reuse, &cfg), transform(&by_hand, &cfg)) {
@@ -352,9 +360,9 @@ impl Property for C18 {
                 } else {
                     let i = cx.iter().zip(cy.iter()).position(|(p, q)| p != q).unwrap_or(cx.len().min(cy.len()));
                     // is it (only) an instance of the template with an internal forward reference?
-                    if case.insts.iter().any(|i| i.tpl % 15 == 11) {
+                    if case.insts.iter().any(|i| i.tpl % 17 == 11) {
                         let mut reduced = case.clone();
-                        reduced.insts.retain(|i| i.tpl % 15 != 11);
+                        reduced.insts.retain(|i| i.tpl % 17 != 11);
                         if reduced.insts.is_empty() || self.judge(&reduced, _strict).status == crate::engine::Status::Pass {
                             let i = cx.iter().zip(cy.iter()).position(|(p, q)| p != q).unwrap_or(cx.len().min(cy.len()));
                             return Verdict::fail(
